@@ -43,7 +43,9 @@ def run(ctx) -> None:
     prog, effects, cfgs = ctx.prog, ctx.effects, ctx.cfgs
     ctx.rule("R1", "--dry: no FS_WRITE / VCS_MUTATE / HOOK / PROC reachable; diff path effects are read/echo/exit only")
     ctx.rule("R2", "diff path and write path agree on iterator, open keywords, rfd_from_content call, record, new_vinfo provenance")
-    ctx.rule("R3", "every validation failure of the write path is also a failure of the diff path")
+    ctx.rule("R3", "every validation failure of the write path is also a failure of the diff path; staging cannot fail on a configured file that git ignores (`git add --update`)")
+    from checks.c10 import command_options_rule
+    command_options_rule(ctx, "R3", "add_path")
     ctx.rule("R6", "prerequisite: the real run writes exactly the record the diff was computed from - lines joined with the file's separator, to the configured path itself (C04/R1, R2, R4)")
     from sa.report import run_prerequisite
     run_prerequisite(ctx, "C04", ("R1", "R2", "R4"), "R6")
